@@ -606,7 +606,8 @@ func (w *world) applyStream(o op) (recv, res *entry, args []*entry, ran bool) {
 	case "s.FilterNotNil":
 		want := append([]int{}, a...)
 		if w.fam.name() == "I" {
-			want = mWithout(a, []int{nilElem})
+			// the untyped nil and the typed nil pointer (model value 4 in this family) are both "nil" here
+			want = mWithout(a, []int{nilElem, 4})
 		}
 		return reg(h.filterNotNil(), want)
 	case "s.Distinct":
